@@ -159,7 +159,7 @@ pub fn gen_srv_case(rng: &mut Rng, profile: Profile, prop: &'static str) -> SrvC
         kill_twice: rng.chance(1, 8),
         placeholder0: rng.chance(1, 3),
         skip_start: false,
-        fd_high: if rng.chance(1, 40) { 1 + rng.below(2) as u8 } else if rng.chance(1, 12) { 3 + rng.below(7) as u8 } else { 0 },
+        fd_high: if rng.chance(1, 40) { 1 + rng.below(2) as u8 } else if rng.chance(1, 12) { 3 + rng.below(7) as u8 } else if rng.chance(1, 30) { 10 + rng.below(4) as u8 } else { 0 },
     };
     let mut st = Stats::default();
     let mut flags = flags_for(prop, profile);
@@ -1033,7 +1033,7 @@ fn full_house(rng: &mut Rng) -> SrvCase {
         kill_twice: rng.chance(1, 8),
         placeholder0: rng.chance(1, 3),
         skip_start: false,
-        fd_high: if rng.chance(1, 40) { 1 + rng.below(2) as u8 } else if rng.chance(1, 12) { 3 + rng.below(7) as u8 } else { 0 },
+        fd_high: if rng.chance(1, 40) { 1 + rng.below(2) as u8 } else if rng.chance(1, 12) { 3 + rng.below(7) as u8 } else if rng.chance(1, 30) { 10 + rng.below(4) as u8 } else { 0 },
     };
     let n = *rng.pick(&[10usize, 10, 10, 9, 8]);
     for c in 0..n {
